@@ -382,3 +382,32 @@ pub fn gen_prefix(rng: &mut Rng, n: usize, thorough: bool) -> Vec<Case> {
     }
     out
 }
+
+/// systematic single-field corruption: every recorded header/table field of one rich object set
+/// to each boundary value (0, 1, 2^31, 2^32-1, 2^63, 2^64-1, +-1 around the valid value, file length)
+pub fn gen_sweep(rng: &mut Rng, n: usize, thorough: bool) -> Vec<Case> {
+    let mut out = vec![];
+    let objs = if thorough { n.max(1) * 3 } else { n.max(1) };
+    for _ in 0..objs {
+        let fc = rand_object(rng, true);
+        let le = fc.obj.le;
+        // queries: keep the transcript small but complete
+        let q = fc.queries.join(",");
+        for f in &fc.built.fields {
+            let cur = get(&fc.built.bytes[f.off..f.off + f.width], le, f.width);
+            let mask = if f.width == 8 { u64::MAX } else { (1u64 << (8 * f.width)) - 1 };
+            let mut vals = vec![0u64, 1, 1 << 31, (1u64 << 32) - 1, 1u64 << 63, u64::MAX, cur.wrapping_add(1), cur.wrapping_sub(1),
+                                fc.built.bytes.len() as u64];
+            for v in vals.iter_mut() { *v &= mask; }
+            vals.sort();
+            vals.dedup();
+            for v in vals {
+                if v == cur { continue; }
+                let mut b = fc.built.bytes.clone();
+                put_at(&mut b, f.off, le, f.width, v);
+                out.push((format!("file any {} {}", q, hex(&b)), format!("clean=0|corrupt={}={}", f.name, v)));
+            }
+        }
+    }
+    out
+}
